@@ -84,9 +84,25 @@ GRIDS = {
         lon=[-HALF, -178400, -177000, -2000, 0, 2000, 176000, 178800, HALF],
         win_lat=[-1500, -500, 0, 800, 2000], win_lon=None, am=True,
     ),
+    # evenly spaced lines whose spacing is not exactly representable in binary: 0.1 degree ...
+    'tenth': dict(
+        lat=_rng(-90000, 90000, 100), lon=_rng(-HALF, HALF, 100),
+        win_lat=[40000, 40100, 40200, 40300, 40400], win_lon=[10000, 10100, 10200, 10300, 10400], am=True,
+    ),
+    # ... and 1/3 degree (coordinates of this grid are in 1/3000 degree)
+    'third': dict(
+        unit=3000, lat=_rng(-270000, 270000, 1000), lon=_rng(-540000, 540000, 1000),
+        win_lat=[120000, 121000, 122000, 123000, 124000], win_lon=[30000, 31000, 32000, 33000, 34000], am=True,
+    ),
 }  # fmt: skip
 ALT_GRID = [0.0, 1000.0, 3000.0, 6000.0, 12500.0]  # metres
 TIME_GRID = [1000.0, 1600.0, 2800.0, 4600.0]  # seconds
+# evenly spaced vertical / time lines with a spacing that is not exactly representable:
+# flight levels every 1000 ft given in metres, and a 0.1 s time grid
+VGRIDS = {
+    'std': (ALT_GRID, TIME_GRID),
+    'even': ([float(x) for x in np.arange(0.0, 15000.0, 304.8)], [float(x) for x in np.arange(0.0, 10.0, 0.1)]),
+}
 
 # per-point alphabets for the vertical / time axes: first grid value, interior of first cell,
 # interior line, interior of a middle cell, highest line
@@ -269,7 +285,104 @@ def sublattices(tier, seed=0):
             cs.append(_case(gid, pts, ns=ns, ni=ni, vals=vp))
     subs.append(dict(name='varcount', axes={'path': len(hp), 'n_state': [0, 1, 2], 'n_integrated': [0, 1, 2, 3], 'values': ['p', 'z']}, cases=cs))
     subs += tiny_sublattices()
+    subs += even_grid_sublattices()
+    subs += sequence_sublattices()
+    # long histories: every 128th (1024th) case of everything above, gridded one after the other
+    # in one process - what a long-lived worker would see, but self-contained and replayable
+    flat = [c for s in subs for c in s['cases'] if 'seq' not in c]
+    stride, nseq = (1024, 32) if tier == 'thorough' else (128, 16)
+    subs.append(dict(
+        name='sequence-long', axes={'start offset': nseq, 'stride': stride, 'gridder': ['same object']},
+        cases=[dict(seq=flat[r::stride], rel='same') for r in range(nseq)],
+    ))  # fmt: skip
     return subs
+
+
+# evenly spaced grids with a non-representable spacing: a point exactly on EVERY one of many
+# consecutive grid lines (an arithmetic index computation may misround only some of them)
+N_SWEEP = 60
+
+
+def even_grid_sublattices():
+    subs = []
+    for gid in ('tenth', 'third'):
+        g = GRIDS[gid]
+        u = grid_unit(gid)
+        st = g['win_lat'][1] - g['win_lat'][0]
+        la0, lo0 = g['win_lat'][0], g['win_lon'][0]
+        cs = []
+        for k in range(N_SWEEP):
+            for axis in (0, 1):
+                line = (la0 if axis == 0 else lo0) + k * st
+                other = (lo0 if axis == 0 else la0) + st // 2
+
+                def pt(x, y, axis=axis):
+                    return (x, y) if axis == 0 else (y, x)
+
+                on = pt(line, other)
+                cs.append(_case(gid, (on, pt(line + st // 2, other + st // 4)), u=u))  # leaves the line upwards
+                cs.append(_case(gid, (pt(line - st // 2, other - st // 4), on), u=u))  # arrives on the line from below
+                cs.append(_case(gid, (on, pt(line - st // 4, other + st // 4)), u=u))  # leaves the line downwards
+                cs.append(_case(gid, (on, pt(line, other + 3 * st // 2)), u=u))  # runs along the line
+                cs.append(_case(gid, (on, on), u=u))  # repeated point on the line
+        subs.append(dict(name=f'online:{gid}', axes={'line': N_SWEEP, 'axis': ['lat', 'lon'], 'path': 5}, cases=cs))
+    alts, times = VGRIDS['even']
+    cs = []
+    for gid, pts in h_paths()[:2]:
+        for k in range(len(alts) - 1):
+            for a in (alts[k], (alts[k] + alts[k + 1]) / 2, alts[k + 1]):
+                cs.append(_case(gid, pts, v='alt', vg='even', alt=[a, alts[1] / 2]))
+        for k in range(len(times) - 1):
+            for t in (times[k], (times[k] + times[k + 1]) / 2, times[k + 1]):
+                cs.append(_case(gid, pts, v='time', vg='even', time=[t, times[-1]]))
+    seen, uniq = set(), []
+    for c in cs:
+        key = repr(c)
+        if key not in seen:
+            seen.add(key)
+            uniq.append(c)
+    subs.append(dict(
+        name='vertical-even', cases=uniq,
+        axes={'path': 2, 'altitude': 'every line and every cell middle of arange(0, 15000, 304.8) m', 'time': 'every line and every cell middle of arange(0, 10, 0.1) s'},
+    ))  # fmt: skip
+    return subs
+
+
+# histories: several paths gridded one after the other in ONE process (state carried between
+# calls - caches, reused buffers - is only visible this way). Every single case of all other
+# sub-lattices is evaluated in a process that has never gridded anything (see isolated()).
+def seq_calls():
+    t = U7 // MDEG
+    return [
+        _case('deg1', [(40500, 10500), (40750, 10250)]),  # 0: one cell
+        _case('deg1', [(40500, 10500), (40500, 11250)]),  # 1: one crossing -> 2 partial pieces
+        _case('deg1', [(40500, 10500), (41250, 11750)]),  # 2: two crossings -> 3 partial pieces
+        _case('deg1', [(40500, 10500), (41500, 12500)]),  # 3: three crossings
+        _case('irreg', [(400, 600), (400, 600)]),  # 4: repeated point alone
+        _case('deg1', [(40500, 10500), (40500, 10500), (40750, 10250)]),  # 5: repeated point first, 2 pieces
+        _case('deg1', [(40500, 10500), (40750, 10250), (40750, 10250)]),  # 6: repeated point last, 2 pieces
+        _case('deg1', [(40500, 10500), (40500, 11250), (40500, 11250)]),  # 7: crossing, then repeated point (3 pieces)
+        _case('deg1', [(40500, 10500), (40500, 10500), (40500, 10500), (40750, 10250)]),  # 8: two repeats, 3 pieces
+        _case('irreg', [(-1000, -1000), (400, 600), (400, 600), (1000, -1000)]),  # 9: repeat inside a path
+        _case('deg1', [(40500, 179500), (41000, -179500)]),  # 10: antimeridian
+        _case('deg1', [(41500, 180000), (41500, -180000)]),  # 11: same point written with both longitudes
+        _case('half2', [(-41250, -15000), (-41250, -13000)]),  # 12: other grid, one crossing
+        _case('deg1', [(40500, 10500), (40500, 11250)], v='alt+time', alt=[0.0, 500.0], time=[1000.0, 1300.0]),  # 13
+        _case('deg1', [(40500, 10500), (40500, 11250)], ns=2, ni=3),  # 14: more variables
+        _case('deg1', [(42000 * t - 40, 12000 * t), (42000 * t + 45, 12000 * t)], u=U7),  # 15: 1 m leg across a line
+    ]
+
+
+def sequence_sublattices():
+    calls = seq_calls()
+    n = len(calls)
+    pairs = [dict(seq=[calls[i], calls[j]], rel=rel) for rel in ('same', 'fresh') for i in range(n) for j in range(n)]
+    sub = [1, 2, 5, 6, 7, 8, 4, 0]
+    triples = [dict(seq=[calls[i], calls[j], calls[k]], rel='same') for i in sub for j in sub for k in sub]
+    return [
+        dict(name='sequence2', axes={'first call': n, 'second call': n, 'gridder': ['same object', 'new object per call']}, cases=pairs),
+        dict(name='sequence3', axes={'call': len(sub), 'length': 3, 'gridder': ['same object']}, cases=triples),
+    ]
 
 
 # scale axis: legs of centimetres to metres. Coordinates in 1e-7 degree (about 1.1 cm of latitude).
@@ -358,30 +471,50 @@ def _rad(values, unit=MDEG):
 _SCALED = {}
 
 
-def scaled_grid(gid, unit=MDEG):
-    """The grid with its edges expressed in 1/unit degree (unit is a multiple of 1000)."""
+def grid_unit(gid):
+    return GRIDS[gid].get('unit', MDEG)
+
+
+_GRID_RAD = {}
+
+
+def grid_rad(gid):
+    """(latitude lines, longitude lines) of a grid in radians, exactly as given to the Gridder."""
+    if gid not in _GRID_RAD:
+        g = GRIDS[gid]
+        _GRID_RAD[gid] = (_rad(g['lat'], grid_unit(gid)), _rad(g['lon'], grid_unit(gid)))
+    return _GRID_RAD[gid]
+
+
+def scaled_grid(gid, unit=None):
+    """The grid with its edges expressed in 1/unit degree (unit is a multiple of the grid's own unit)."""
+    unit = unit or grid_unit(gid)
     key = (gid, unit)
     if key not in _SCALED:
         g = GRIDS[gid]
-        f = unit // MDEG
-        assert f * MDEG == unit
+        f = unit // grid_unit(gid)
+        assert f * grid_unit(gid) == unit
         _SCALED[key] = dict(lat=[e * f for e in g['lat']], lon=[e * f for e in g['lon']], unit=unit, half=180 * unit, full=360 * unit)
     return _SCALED[key]
 
 
-def gridder(gid, gaxes):
-    """One long-lived Gridder per (grid, axes) per worker: repeated calls on the same object."""
-    key = (gid, gaxes)
-    if key not in _GRIDDERS:
+def gridder(gid, gaxes, vg='std', fresh=False):
+    """One long-lived Gridder per (grid, axes) per process (repeated calls on the same object);
+    fresh=True builds a new object for this call."""
+    key = (gid, gaxes, vg)
+    if fresh or key not in _GRIDDERS:
         from vf import env
 
         env.stub_shapely()
         from AEIC.gridding.grid import Gridder
 
-        g = GRIDS[gid]
-        alt = np.array(ALT_GRID) if gaxes in ('alt', 'alt+time', 'full') else None
-        tim = np.array(TIME_GRID) if gaxes in ('time', 'alt+time', 'full') else None
-        _GRIDDERS[key] = Gridder(_rad(g['lat']), _rad(g['lon']), alt, tim)
+        la, lo = grid_rad(gid)
+        alt = np.array(VGRIDS[vg][0]) if gaxes in ('alt', 'alt+time', 'full') else None
+        tim = np.array(VGRIDS[vg][1]) if gaxes in ('time', 'alt+time', 'full') else None
+        obj = Gridder(la.copy(), lo.copy(), alt, tim)
+        if fresh:
+            return obj
+        _GRIDDERS[key] = obj
     return _GRIDDERS[key]
 
 
@@ -390,16 +523,16 @@ def case_params(case):
     return dict(
         gid=case['g'], pts=[tuple(p) for p in case['pts']], v=v, gaxes=case.get('gaxes', v),
         alt=case.get('alt'), time=case.get('time'), ns=case.get('ns', 1), ni=case.get('ni', 1), vals=case.get('vals', 'p'),
-        unit=case.get('u', MDEG),
+        unit=case.get('u') or grid_unit(case['g']), vg=case.get('vg', 'std'),
     )  # fmt: skip
 
 
-def run_impl(p, ns=None, ni=None):
+def run_impl(p, ns=None, ni=None, fresh=False):
     """Call the real Gridder.grid_trajectory. Returns ('ok', outputs) or ('raise', exception)."""
     ns = p['ns'] if ns is None else ns
     ni = p['ni'] if ni is None else ni
     n = len(p['pts'])
-    g = gridder(p['gid'], p['gaxes'])
+    g = gridder(p['gid'], p['gaxes'], p['vg'], fresh)
     lats = _rad([q[0] for q in p['pts']], p['unit'])
     lons = _rad([q[1] for q in p['pts']], p['unit'])
     alts = np.array(p['alt'], dtype=float) if p['v'] in ('alt', 'alt+time') else None
@@ -416,9 +549,8 @@ def run_impl(p, ns=None, ni=None):
     return 'ok', dict(out=out, inputs_mutated=mutated)
 
 
-def label_index(values, grid_mdeg):
+def label_index(values, gr):
     """Map reported cell coordinates (radians) back to grid indices by exact equality."""
-    gr = _rad(grid_mdeg)
     values = np.asarray(values, dtype=float)
     idx = np.full(values.shape, -1, dtype=int)
     for i, x in enumerate(values):
@@ -618,9 +750,9 @@ def parse_output(p, out, ns, ni):
         problems.append(('length-mismatch', f'output array lengths differ: {lens}'))
     if problems:
         return problems, None
-    g = GRIDS[p['gid']]
+    gla, glo = grid_rad(p['gid'])
     tab = dict(
-        n=len(clat), ilat=label_index(clat, g['lat']), ilon=label_index(clon, g['lon']),
+        n=len(clat), ilat=label_index(clat, gla), ilon=label_index(clon, glo),
         alt=np.asarray(calt, float) if want_alt else None, time=np.asarray(ctime, float) if want_time else None,
         sv=[np.asarray(a, float) for a in sv], iv=[np.asarray(a, float) for a in iv],
     )  # fmt: skip
@@ -633,19 +765,178 @@ def calibrate(tier='thorough'):
     worst = 0.0
     for s in sublattices(tier):
         for c in s['cases']:
+            if 'seq' in c:
+                continue
             pts = [tuple(q) for q in c['pts']]
             for a, b in zip(pts[:-1], pts[1:]):
-                u = c.get('u', MDEG)
+                u = c.get('u') or grid_unit(c['g'])
                 r = exact_segment(a, unwrap_end(a, b, u), scaled_grid(c['g'], u))
                 if not r['zero']:
                     worst = max(worst, sum(x['raw'] for x in r['pieces']) - 1.0)
     return worst
 
 
+# ----------------------------------------------------------------------------- isolation
+
+
+def isolated(fn, arg):
+    """Run fn(arg) in a forked child of this process and return its (picklable) result.
+
+    The worker itself never calls the gridding code, so every case starts from the state
+    "module imported, Gridder objects built, nothing gridded yet" - in the exploration and in
+    a fresh-process replay alike. History is explored explicitly by the sequence sub-lattices."""
+    import os
+    import pickle
+    import traceback
+
+    from vf.runner import HarnessError
+
+    r, w = os.pipe()
+    pid = os.fork()
+    if pid == 0:
+        code = 0
+        try:
+            os.close(r)
+            try:
+                res = ('ok', fn(arg))
+            except BaseException:
+                res = ('err', traceback.format_exc())
+            with os.fdopen(w, 'wb') as f:
+                pickle.dump(res, f)
+        except BaseException:
+            code = 1
+        finally:
+            os._exit(code)
+    os.close(w)
+    with os.fdopen(r, 'rb') as f:
+        data = f.read()
+    _, status = os.waitpid(pid, 0)
+    if not data or status != 0:
+        raise HarnessError(f'isolated evaluation died (wait status {status}) on {arg!r}')
+    kind, res = pickle.loads(data)
+    if kind == 'err':
+        raise HarnessError('isolated evaluation raised:\n' + res)
+    return res
+
+
+WINDOW = 64  # cases served by one child process before it is replaced
+MINIMISE_BUDGET = 3  # history-dependent violations per worker whose history is shrunk to one predecessor
+
+
+class _CaseServer:
+    """A forked child of the (pristine) worker that evaluates cases one after the other."""
+
+    def __init__(self, single):
+        import multiprocessing as mp
+        import os
+
+        self.parent, child = mp.Pipe()
+        self.pid = os.fork()
+        if self.pid == 0:
+            code = 0
+            try:
+                self.parent.close()
+                while True:
+                    try:
+                        case = child.recv()
+                    except EOFError:
+                        break
+                    try:
+                        res = ('ok', _run_maybe_seq(single, case))
+                    except BaseException:
+                        import traceback
+
+                        res = ('err', traceback.format_exc())
+                    child.send(res)
+            except BaseException:
+                code = 1
+            finally:
+                os._exit(code)
+        child.close()
+
+    def call(self, case):
+        from vf.runner import HarnessError
+
+        try:
+            self.parent.send(case)
+            kind, res = self.parent.recv()
+        except (EOFError, OSError) as e:
+            raise HarnessError(f'evaluation process died on {case!r}: {e}') from e
+        if kind == 'err':
+            raise HarnessError('evaluation raised:\n' + res)
+        return res
+
+    def close(self):
+        import os
+
+        try:
+            self.parent.close()
+            os.waitpid(self.pid, 0)
+        except OSError:
+            pass
+
+
+_SERVE = {'srv': None, 'hist': [], 'minimised': 0}
+
+
+def run_isolated(single, case):
+    """Evaluate one case with a reproducible verdict.
+
+    The worker process itself never grids anything. Cases are evaluated by a child forked from
+    it, which serves up to WINDOW consecutive cases (so state carried between calls is still
+    exercised by whatever happens to run together). If a case shows violations after earlier
+    cases of its window, it is evaluated again in a brand-new child: violations that appear there
+    too are reported for the case alone; violations that only appear after the earlier calls are
+    reported with a replay case that contains those calls (shrunk to a single predecessor when
+    one suffices), so a fresh-process replay re-creates exactly the history that matters."""
+    st = _SERVE
+    if st['srv'] is None or len(st['hist']) >= WINDOW:
+        if st['srv'] is not None:
+            st['srv'].close()
+        st['srv'], st['hist'] = _CaseServer(single), []
+    res = st['srv'].call(case)
+    hist = st['hist']
+    if res['violations'] and hist:
+        cold = isolated(lambda c: _run_maybe_seq(single, c), case)
+        if cold['violations']:
+            res = cold
+        else:
+            replay = dict(seq=hist + [case], rel='same')
+            if st['minimised'] < MINIMISE_BUDGET:
+                st['minimised'] += 1
+                for h in reversed(hist):
+                    two = dict(seq=[h, case], rel='same')
+                    if isolated(lambda c: _run_maybe_seq(single, c), two)['violations']:
+                        replay = two
+                        break
+            res = dict(res, replay_case=replay)
+            res['violations'] = [dict(v, detail=f'[only after earlier calls in the same process; the replay case holds {len(replay["seq"]) - 1} of them] ' + v['detail']) for v in res['violations']]
+    st['hist'] = hist + [case]
+    return res
+
+
+def _run_maybe_seq(single, case, fresh=False):
+    if 'seq' not in case:
+        return single(case, fresh)
+    fresh = case.get('rel') == 'fresh'
+    n = len(case['seq'])
+    vio, outs, nontriv = [], [], False
+    for i, c in enumerate(case['seq']):
+        r = _run_maybe_seq(single, c, fresh)
+        outs.append(r['outcome'])
+        nontriv = nontriv or r['nontrivial']
+        for v in r['violations']:
+            v = dict(v)
+            v['detail'] = f'call {i + 1} of {n} in one process ({"a new" if fresh else "the same"} Gridder object per call): ' + v['detail']
+            vio.append(v)
+    last = outs[-1] if 'sequence' not in outs[-1] else 'sequence'
+    return {'outcome': f'sequence, last: {last}', 'nontrivial': nontriv, 'violations': vio}
+
+
 # ----------------------------------------------------------------------------- one evaluation
 
 
-def evaluate(case, force_vals=None):
+def evaluate(case, force_vals=None, fresh=False):
     """Run the real code for one case (plus the variable-count variant when the case asks for
     0 state or 0 integrated variables) and attach the exact oracle per segment.
 
@@ -657,7 +948,7 @@ def evaluate(case, force_vals=None):
     if force_vals:
         p['vals'] = force_vals
     ns_m, ni_m = max(p['ns'], 1), max(p['ni'], 1)
-    kind, res = run_impl(p, ns_m, ni_m)
+    kind, res = run_impl(p, ns_m, ni_m, fresh)
     if kind == 'raise':
         return dict(p=p, error=res)
     problems, tab = parse_output(p, res['out'], ns_m, ni_m)
@@ -665,7 +956,7 @@ def evaluate(case, force_vals=None):
         return dict(p=p, problems=problems)
     variant = []
     if (p['ns'], p['ni']) != (ns_m, ni_m):
-        k2, r2 = run_impl(p)
+        k2, r2 = run_impl(p, fresh=fresh)
         if k2 == 'raise':
             variant.append(('exception', f'with {p["ns"]} state / {p["ni"]} integrated variables: {type(r2).__name__}: {r2}'))
         else:
@@ -689,7 +980,7 @@ def evaluate(case, force_vals=None):
     for a, b in zip(p['pts'][:-1], p['pts'][1:]):
         bu = unwrap_end(a, b, p['unit'])
         segs.append(dict(a=a, b=bu, am=is_am(a, b, p['unit']), exact=exact_segment(a, bu, g)))
-    return dict(p=p, tab=tab, segs=segs, grid=g, variant=variant, mutated=res['inputs_mutated'])
+    return dict(p=p, tab=tab, segs=segs, grid=g, vgrids=VGRIDS[p['vg']], variant=variant, mutated=res['inputs_mutated'])
 
 
 def outcome_class(ev):
